@@ -1,6 +1,6 @@
 (* Wire/CmdLineCheck.v — case checkers for the command reader. *)
 From PV Require Import Base.Prelude Base.Decimal Wire.Lex Wire.Strings Wire.StringsCheck
-  Wire.ModUtf7 Wire.ModUtf7Check Wire.CmdLine.
+  Wire.ModUtf7 Wire.ModUtf7Check Wire.SeqSet Wire.SeqSetCheck Wire.CmdLine.
 
 Local Open Scope N_scope.
 
@@ -8,6 +8,9 @@ Definition argval_eqb (a b : argval) : bool :=
   match a, b with
   | VStr x, VStr y => bytes_eqb x y
   | VMbox x, VMbox y => eqb_list N.eqb x y
+  | VPat x, VPat y => eqb_list N.eqb x y
+  | VSeq x, VSeq y => seqset_eqb x y
+  | VAttrs x, VAttrs y => eqb_list bytes_eqb x y
   | _, _ => false
   end.
 
@@ -28,10 +31,12 @@ Definition chk_endline (c : bytes * option bytes) : bool :=
 Definition chk_litplus (c : bytes * option N) : bool :=
   option_eqb N.eqb (lit_plus_suffix (fst c)) (snd c).
 
-(* Commands.parse on (continuations, line): the command object or the interrupt *)
+(* Commands.parse on (continuations, line): the command object or the interrupt;
+   a line the model declares outside its fragment (an option list) is skipped *)
 Definition chk_command (c : list bytes * bytes * xres command) : bool :=
   let '(cs, b, x) := c in
   match parse_command cmd_table default_sparams cs b, x with
+  | POk CmdOutside _ _, _ => true
   | POk a _ _, XOk a' _ _ => command_eqb a a'
   | PNeed n, XNeed n' => n =? n'
   | _, _ => false
@@ -41,6 +46,7 @@ Definition chk_command (c : list bytes * bytes * xres command) : bool :=
    Some (command, unread rest, continuation requests) | None = EOF *)
 Definition chk_read (c : bytes * option (command * bytes * N)) : bool :=
   match read_command cmd_table default_sparams (fst c), snd c with
+  | Ok (CmdOutside, _, _), _ => true
   | Ok (cmd, rest, n), Some (cmd', rest', n') =>
     command_eqb cmd cmd' && bytes_eqb rest rest' && (N.of_nat n =? n')
   | Exc k, None => k =? EXC_EOF
